@@ -8,7 +8,7 @@ PROOF = "proof"
 # id -> (claimed?, level text, level note, technique, design section)   or (False, reason)
 CHECKS = {
     "C01": (True,
-            'Coq proofs on the throttle_collect machine over ANY sequence of received events: delivered ++ being-collected equals, in order, the received events that are urgent, empty or passed (each exactly once, nothing else), no batch is empty, rejected/erroring events are never delivered; queue model: received ++ queued is a permutation of sent under any interleaving and tie-breaking. PARTIAL: the fs/signal/keyboard sources are not modelled (OS behaviour). The model is run on the observed receive sequence of 64 real-time scenarios (12 families, 1-4 producers, capacity 1-4096) against action::worker.',
+            'Coq proofs on the throttle_collect machine over ANY sequence of received events: delivered ++ being-collected equals, in order, the received events that are urgent, empty or passed (each exactly once, nothing else), no batch is empty, rejected/erroring events are never delivered; queue model: received ++ queued is a permutation of sent under any interleaving and tie-breaking. PARTIAL: what the fs/signal/keyboard sources emit is OS behaviour and not modelled; real filesystem operations (create/write/rename/remove, nested directories) under the native and the poll watcher are run through a real Watchexec and the events the filter saw are compared, as multisets, with what the handler received. The model is run on the observed receive sequence of 64 real-time scenarios (14 families incl. identical events and run-time throttle changes, 1-4 producers, capacity 1-4096) against action::worker.',
             'Trusted: Coq kernel, harness (real-time taps through a scripted Filterer and action handler). tokio timeout, std Instant, async-priority-channel are modelled; the model is evaluated on the observed receive instants (cases within 18 ms of a window edge are judged by the monitors only). No axioms.',
             'Rocq/Coq proof by induction over the receive sequence + real-time relational trace validation',
             "DESIGN.md section 5.5 and 6 C01"),
@@ -34,7 +34,7 @@ CHECKS = {
             "Rocq/Coq proof (parametric in the matcher) + 3-way differential correspondence (code / model / git-style reference)",
             "DESIGN.md section 6 C03"),
     "C04": (True,
-            'Coq invariant proof over the small-step model of the job task: for every label sequence (any sends, any select! choices, any timing), every child behaviour and every spawn/signal/kill fault pattern, and every code variant, the spawned-and-unreaped children are exactly the child the state calls Running, hence at most one; spawns only happen from a state with none. The model is validated against the real start_job task: the event log and ticket times of ~850 histories per run must be among the outcomes the model allows.',
+            'Coq invariant proof over the small-step model of the job task: for every label sequence (any sends, any select! choices, any timing), every child behaviour and every spawn/signal/kill fault pattern, and every code variant, the spawned-and-unreaped children are exactly the child the state calls Running, hence at most one; spawns only happen from a state with none. The model is validated against the real start_job task: the event log and ticket times of ~850 histories per run must be among the outcomes the model allows. Also run, judged by log monitors: 2-4 concurrent sender tasks on a multi-threaded runtime, and children that need 3 s to die after SIGKILL.',
             'Trusted: Coq kernel, translator (API table), harness (SimChild through the public spawn hook, paused tokio clock). tokio select!/mpsc/timers, process-wrap and the OS are modelled: select! as a free choice among ready branches, kill = start_kill + wait. The hand-written task model (Job/JobModel.v) is tied to task.rs / priority.rs / state.rs by the membership correspondence. No axioms.',
             'Rocq/Coq invariant proof by induction over labels + membership correspondence on a paused-clock runtime',
             "DESIGN.md section 5.4 and 6 C04"),
@@ -49,7 +49,7 @@ CHECKS = {
             'Rocq/Coq proof (step lemmas + invariant over label sequences) + membership correspondence',
             "DESIGN.md section 5.4 and 6 C06"),
     "C07": (True,
-            "Coq proof that no ticket is ever lost: for every API-shaped label sequence, child behaviour and fault pattern, each accepted control's flag is raised, or still held (queue, grace timer, wait-for-end list, restart marker), or the job has ended; each control is executed at most once; a raised flag leaves no waiter pending for any number of waiters (Flag model). Safety half only: eventual release relies on C06/C10 and runtime fairness (partial). Refutation witnesses for the three repaired leaks. Correspondence with 1-4 waiter tasks per ticket.",
+            "Coq proof that no ticket is ever lost: for every API-shaped label sequence, child behaviour and fault pattern, each accepted control's flag is raised, or still held (queue, grace timer, wait-for-end list, restart marker), or the job has ended; each control is executed at most once; a raised flag leaves no waiter pending for any number of waiters (Flag model). Safety half only: eventual release relies on C06/C10 and runtime fairness (partial). Refutation witnesses for the three repaired leaks. Correspondence with 1-4 waiter tasks per ticket. Liveness: under an eager runtime every queued control is executed within the grace periods in effect, after which every ticket is resolved except wait-for-end tickets of a running command (Job/JobDrain.v). The last Job handle being dropped is an API-shaped label (a Delete noticed after the urgent/high lanes); concurrent senders on a multi-threaded runtime are judged by monitors.",
             'Trusted: Coq kernel, translator (API table), harness (SimChild through the public spawn hook, paused tokio clock). tokio select!/mpsc/timers, process-wrap and the OS are modelled: select! as a free choice among ready branches, kill = start_kill + wait. The hand-written task model (Job/JobModel.v) is tied to task.rs / priority.rs / state.rs by the membership correspondence. No axioms.',
             'Rocq/Coq invariant proof (flag accounting) + Flag model + membership correspondence',
             "DESIGN.md section 5.4 and 6 C07"),
